@@ -82,7 +82,10 @@ func runBatch(c *core.Child) {
 	reps := c.Scale(1, 50)
 	n := 0
 	for rep := 0; rep < reps; rep++ {
-		for idx := range list {
+		// the seed decides the order in which this repetition visits the
+		// schedules (and with it which schedules follow each other in a child)
+		order := core.NewRNG(c.Seed).Derive(core.HashString("C16/order"), uint64(rep)).Perm(len(list))
+		for _, idx := range order {
 			n++
 			if n%c.NBatches != c.Batch {
 				continue
